@@ -129,13 +129,17 @@ class SteadyDetonationReactionZone(ExactSolver):
         if np.any(tvec >= 1.0):
             it1 = np.where(tvec>=1.0)[0][0]
 
+        # Relative position at the end of the reaction zone (t = 1)
+        xrel1 = self.rho_0 * self.Dj / self.rhoj *\
+                ((1.0 - 1.0/self.gamma) + 1.0 / (2.0 * self.gamma))
+
         for i,t in enumerate(tvec):
             if t <= 1.0:
                 xvec_rel[i] = self.rho_0 * self.Dj / self.rhoj *\
                 ((1.0 - 1.0/self.gamma)*t + t**2 /
                         (2.0 * self.gamma))
             else:
-                xvec_rel[i] = xvec_rel[it1] + (self.D - uvec[it1]) * (t-1.0)
+                xvec_rel[i] = xrel1 + (self.D - uvec[it1]) * (t-1.0)
 
         xvec_abs = self.D * tvec[-1] - xvec_rel   # Particle position in absolute coordinates
 
